@@ -73,7 +73,7 @@ def date(
     return _date(dat, fmt, environment=environment)
 
 
-@functools.lru_cache(maxsize=10)
+@functools.lru_cache(maxsize=10, typed=True)
 def _date(  # noqa: PLR0912 PLR0911
     dat: datetime.datetime | str | int,
     fmt: str,
